@@ -95,7 +95,7 @@ Definition ref_init (n : Z) : refb := mkRef (n * whole) 0.
 Definition ref_level (n : Z) (now : time) (rb : refb) : Z :=
   Z.min (n * whole) (rb_tokens rb + n * (now - rb_last rb)).
 
-(* greedy service: admit exactly when a whole token is there *)
+(* greedy service: an arrival is let through exactly when a whole token is there *)
 Definition ref_step (n : Z) (now : time) (rb : refb) : refb * bool :=
   let lv := ref_level n now rb in
   if Z.leb whole lv then (mkRef (lv - whole) now, true) else (mkRef lv now, false).
